@@ -38,7 +38,8 @@ Definition PInv (p : prec) : Prop :=
   (p_store p = SFinalized \/ p_extra p = 8 -> p_indiv p = []) /\
   (p_store p = SFinalized \/ p_store p = SFinFailed -> p_votes p <> []) /\
   (p_store p = SActive -> p_outcome p = OInProgress) /\
-  (p_store p = SActive -> p_extra p = 0).
+  (p_store p = SActive -> p_extra p = 0) /\
+  (p_store p = SPassed -> p_outcome p = OCompletedYes).
 
 Definition Inv (s : state) : Prop := forall id p, g_props s !! id = Some p -> PInv p.
 
@@ -124,8 +125,8 @@ Proof. unfold rank. rewrite af_store, af_status. reflexivity. Qed.
 
 Ltac pinv HP :=
   let H1 := fresh "H1" in let H2 := fresh "H2" in let H3 := fresh "H3" in
-  let H4 := fresh "H4" in let H5 := fresh "H5" in let H6 := fresh "H6" in let H7 := fresh "H7" in
-  destruct HP as (H1 & H2 & H3 & H4 & H5 & H6 & H7); unfold PInv;
+  let H4 := fresh "H4" in let H5 := fresh "H5" in let H6 := fresh "H6" in let H7 := fresh "H7" in let H8 := fresh "H8" in
+  destruct HP as (H1 & H2 & H3 & H4 & H5 & H6 & H7 & H8); unfold PInv;
   rewrite ?af_store, ?af_status, ?af_outcome, ?af_votes, ?af_goal, ?af_total, ?af_indiv, ?af_extra; simpl;
   repeat split; intros;
   try solve [ congruence | discriminate | lia | intuition congruence | intuition discriminate
@@ -136,6 +137,7 @@ Ltac pinv HP :=
 Lemma fund_good : forall s e id f amt s' ev, h_fund s e id f amt = Some (s', ev) -> good_update s s'.
 Proof.
   intros s e id f amt s' ev H. unfold h_fund in H.
+  destruct (amt <=? 0) eqn:Eamt; [discriminate|].
   destruct (g_props s !! id) as [p|] eqn:E; [|discriminate].
   destruct (bool_decide (p_store p = SActive)) eqn:E1; simpl in H; [|discriminate].
   destruct (p_fdl p <? g_h s); [discriminate|].
@@ -166,7 +168,7 @@ Proof.
   apply vote_update_nonempty in Ev. destruct Ev as [Hne Hne'].
   inversion H; subst; clear H.
   right. exists id. eexists. split; [reflexivity|]. rewrite E. intros HP.
-  destruct (tally vs (o_pass (opts_of e (p_type p)))); split; try (pinv HP);
+  destruct (tally vs (p_pass p)); split; try (pinv HP);
     unfold rank; simpl; rewrite ?E1, ?E2; lia.
 Qed.
 
@@ -206,16 +208,19 @@ Lemma withdraw_good : forall s id f amt ben s' ev, h_withdraw s id f amt ben = S
 Proof.
   intros s id f amt ben s' ev H. unfold h_withdraw in H.
   destruct (g_props s !! id) as [p|] eqn:E; [|discriminate].
+  destruct (bool_decide (p_store p = SActive) || bool_decide (p_store p = SFailed)) eqn:Est; simpl in H; [|discriminate].
+  destruct (amt <=? 0) eqn:Eamt; [discriminate|]. apply Z.leb_gt in Eamt.
+  assert (Hst : p_store p = SActive \/ p_store p = SFailed).
+  { apply orb_prop in Est. destruct Est as [X|X]; apply bool_decide_eq_true in X; auto. }
+  clear Est.
   destruct (refundable (p_outcome p)) eqn:Er.
-  - (* already refundable: only the fund records change *)
-    destruct (funded_visible (g_blk s) p f); [|discriminate].
+  - destruct (funded_visible (g_blk s) p f); [|discriminate].
     destruct (alookup f (p_indiv p)) as [cur|] eqn:El; [|discriminate].
     destruct (cur - amt <? 0); [discriminate|].
     destruct (p_total p - amt <? 0); [discriminate|].
     inversion H; subst; clear H.
     right. exists id. eexists. split; [reflexivity|]. rewrite E. intros HP. split.
-    + pinv HP. all: try (rewrite (H4 H) in El; discriminate).
-      all: try (match goal with Hx : _ \/ _ |- _ => rewrite (H4 Hx) in El; discriminate end).
+    + pinv HP. all: try (match goal with Hx : _ \/ _ |- _ => rewrite (H4 Hx) in El; discriminate end).
       all: try (exfalso; apply H; auto).
     + unfold rank. simpl. lia.
   - destruct ((p_goal p <=? p_total p) || (g_h s <=? p_fdl p)) eqn:Ec; [discriminate|].
@@ -227,45 +232,33 @@ Proof.
     simpl in H.
     destruct (cur - amt <? 0); [discriminate|].
     destruct (p_total p - amt <? 0); [discriminate|].
-    right. exists id.
-    assert (Hcommon : forall HP : PInv p,
-              p_votes p = [] /\ p_store p <> SFinalized /\ p_store p <> SFinFailed /\ p_extra p <> 8).
-    { intros (H1 & H2 & H3 & H4 & H5 & H6 & H7).
-      assert (Hnf : p_store p <> SFinalized).
-      { intros Hs. rewrite (H4 (or_introl Hs)) in El. discriminate. }
+    inversion H; subst; clear H.
+    right. exists id. eexists. split; [reflexivity|]. rewrite E. intros HP.
+    assert (Hcommon : p_votes p = [] /\ p_extra p <> 8).
+    { destruct HP as (H1 & H2 & H3 & H4 & H5 & H6 & H7 & H8).
+      assert (Hnf : p_store p <> SFinalized) by (destruct Hst; congruence).
       assert (Hne8 : p_extra p <> 8).
       { intros Hs. rewrite (H4 (or_intror Hs)) in El. discriminate. }
-      assert (Hv : p_votes p = []).
-      { destruct (p_votes p) eqn:Ev; [reflexivity|]. exfalso.
-        assert (p_goal p <= p_total p) by (apply H2; [done | exact Hnf | exact Hne8]). lia. }
-      repeat split; auto. intros Hs. apply H5; auto. }
-    assert (Hfin : forall st : store, st <> SFinalized -> p_extra p <> 8 ->
-              SFailed = SFinalized \/ match st with SFinalized => 8 | SFinFailed => 16 | _ => p_extra p end = 8 -> False).
-    { intros st Hst Hx [Hd|Hd]; [discriminate|]. destruct st; try congruence; lia. }
-    destruct (bool_decide (p_store p = SPassed)); inversion H; subst; clear H;
-      (eexists; split; [reflexivity|]; rewrite E; intros HP;
-       destruct (Hcommon HP) as (Hv & Hnf & Hnff & Hne8); split;
-       [ pinv HP; try (exfalso; eapply (Hfin (p_store p)); eauto)
-       | unfold rank; simpl; destruct (p_store p); try congruence; destruct (p_status p); lia ]).
+      split; [|exact Hne8].
+      destruct (p_votes p) eqn:Ev; [reflexivity|]. exfalso.
+      assert (p_goal p <= p_total p) by (apply H2; [done | exact Hnf | exact Hne8]). lia. }
+    destruct Hcommon as (Hv & Hne8). split.
+    + pinv HP. all: try (match goal with Hx : _ \/ _ |- _ => destruct Hx; [discriminate | contradiction] end).
+    + unfold rank; simpl. destruct Hst as [Hs|Hs]; rewrite Hs; [destruct (p_status p); lia | lia].
 Qed.
 
 Lemma filter_none {A} (P : A -> bool) (l : list A) : (forall x, P x = false) -> List.filter P l = [].
 Proof. intros H. induction l as [|a l IH]; simpl; [reflexivity|]. rewrite H. exact IH. Qed.
 
-Lemma del_funds_indiv_nokeep e id p : e_keep e = [] -> p_indiv (del_funds e id p) = [].
-Proof.
-  intros Hk. unfold del_funds, with_funds. simpl. rewrite Hk.
-  induction (p_indiv p) as [|kv l IH]; [reflexivity|].
-  rewrite filter_cons. destruct (decide _) as [Hd|Hd]; [|exact IH].
-  exfalso. apply bool_decide_unpack in Hd. inversion Hd.
-Qed.
+Lemma del_funds_indiv_nokeep (p : prec) : p_indiv (del_funds p) = [].
+Proof. reflexivity. Qed.
 
 Lemma props_anom (c : bool) x : g_props (if c then set_anom x else x) = g_props x.
 Proof. destruct c; reflexivity. Qed.
 
 Local Opaque distribute.
 
-Lemma finalize_good : forall s e id s' ev, e_keep e = [] ->
+Lemma finalize_good : forall s e id s' ev, True ->
   h_finalize s e id = Some (s', ev) -> good_update s s'.
 Proof.
   intros s e id s' ev Hk H. unfold h_finalize, fin_move in H.
@@ -284,8 +277,8 @@ Proof.
   all: right; exists id; eexists.
   all: (split; [ rewrite ?props_anom; simpl; rewrite ?Ed; try destruct (bool_decide (p_type p = TConfig)); reflexivity |]).
   all: rewrite E; intros HP; split;
-    [ destruct HP as (H1 & H2 & H3 & H4 & H5 & H6 & H7); unfold PInv;
-      rewrite ?(del_funds_indiv_nokeep _ _ _ Hk); unfold del_funds; simpl; rewrite ?Es;
+    [ destruct HP as (H1 & H2 & H3 & H4 & H5 & H6 & H7 & H8); unfold PInv;
+      rewrite ?del_funds_indiv_nokeep; unfold del_funds; simpl; rewrite ?Es;
       repeat split; intros;
       try solve [ congruence | discriminate | lia | intuition congruence | intuition discriminate
                 | exfalso; intuition congruence
@@ -323,7 +316,7 @@ Proof.
   apply G. simpl. apply pres_refl.
 Qed.
 
-Lemma end_block_pres s e : e_keep e = [] -> pres s (end_block s e).1.
+Lemma end_block_pres s e : True -> pres s (end_block s e).1.
 Proof.
   intros Hk. unfold end_block.
   destruct (run_queue h_expire (g_qexp s) s) as [s1 ev1] eqn:E1.
@@ -344,7 +337,7 @@ Proof.
   exists s1. split; reflexivity.
 Qed.
 
-Definition nokeep (t : txop) : Prop := e_keep (t_env t) = [].
+Definition nokeep (t : txop) : Prop := True.
 
 Lemma step_pres s t : nokeep t -> pres s (step s t).1.1.
 Proof.
@@ -381,22 +374,24 @@ Proof.
   eapply pres_trans; eauto.
 Qed.
 
+Lemma Forall_nokeep_early ts : Forall nokeep ts.
+Proof. induction ts; constructor; [exact I | assumption]. Qed.
+
 Lemma Inv_init : Inv init.
 Proof. intros id p H. unfold init in H. simpl in H. rewrite lookup_empty in H. discriminate. Qed.
 
-(* stage order is monotone along every history in which DeleteAllFunds reaches every record *)
-Theorem stage_monotone : forall ts1 ts2, Forall nokeep (ts1 ++ ts2) ->
-  forall id, (rank_of (run init ts1).1 id <= rank_of (run (run init ts1).1 ts2).1 id)%nat.
+(* stage order is monotone along every history *)
+Theorem stage_monotone : forall ts1 ts2 id,
+  (rank_of (run init ts1).1 id <= rank_of (run (run init ts1).1 ts2).1 id)%nat.
 Proof.
-  intros ts1 ts2 Hk id. apply Forall_app in Hk. destruct Hk as [H1 H2].
-  destruct (run_pres ts1 init H1 Inv_init) as [HI _].
-  destruct (run_pres ts2 _ H2 HI) as [_ R]. apply R.
+  intros ts1 ts2 id.
+  destruct (run_pres ts1 init (Forall_nokeep_early ts1) Inv_init) as [HI _].
+  destruct (run_pres ts2 _ (Forall_nokeep_early ts2) HI) as [_ R]. apply R.
 Qed.
 
-(* from any state that satisfies the invariant, too (the harness starts from a genesis with balances) *)
-Theorem stage_monotone_from : forall s ts, Inv s -> Forall nokeep ts ->
+Theorem stage_monotone_from : forall s ts, Inv s ->
   Inv (run s ts).1 /\ forall id, (rank_of s id <= rank_of (run s ts).1 id)%nat.
-Proof. intros s ts HI Hk. exact (run_pres ts s Hk HI). Qed.
+Proof. intros s ts HI. exact (run_pres ts s (Forall_nokeep_early ts) HI). Qed.
 
 (* ---------- per-handler facts (any state, any sender, any height) ---------- *)
 Lemma set_prop_lookup s id p : g_props (set_prop s id p) !! id = Some p.
@@ -410,7 +405,7 @@ Theorem fund_to_voting : forall s e id f amt s' ev p p',
   (p_status p' = StVoting -> p_goal p <= p_total p' /\ p_vdl p' = g_h s + o_vdelta (opts_of e (p_type p))) /\
   (p_status p' = StFunding -> p_total p' < p_goal p).
 Proof.
-  intros s e id f amt s' ev p p' H E E'. unfold h_fund in H. rewrite E in H.
+  intros s e id f amt s' ev p p' H E E'. unfold h_fund in H. destruct (amt <=? 0) eqn:Eamt; [discriminate|]. rewrite E in H.
   destruct (bool_decide (p_store p = SActive)) eqn:E1; simpl in H; [|discriminate].
   destruct (p_fdl p <? g_h s) eqn:Ef; [discriminate|].
   destruct (bool_decide (p_status p = StFunding)) eqn:E2; simpl in H; [|discriminate].
@@ -442,7 +437,7 @@ Theorem vote_per_tally : forall s e id v o s' ev p p',
   h_vote s e id v o = Some (s', ev) -> g_props s !! id = Some p -> g_props s' !! id = Some p' ->
   p_store p = SActive /\ p_status p = StVoting /\ g_h s <= p_vdl p /\
   vote_update v o (p_votes p) = Some (p_votes p') /\
-  match tally (p_votes p') (o_pass (opts_of e (p_type p))) with
+  match tally (p_votes p') (p_pass p) with
   | RPassed => p_store p' = SPassed /\ p_outcome p' = OCompletedYes
   | RFailed => p_store p' = SFailed /\ p_outcome p' = OCompletedNo
   | RTBD => p_store p' = SActive /\ p_outcome p' = p_outcome p
@@ -457,7 +452,7 @@ Proof.
   destruct (vote_update v o (p_votes p)) as [vs|] eqn:Eu; [|discriminate].
   destruct (p_snapblk p =? g_blk s); [discriminate|].
   inversion H; subst; clear H. simpl in E'. rewrite lookup_insert in E'. inversion E'; subst; clear E'.
-  destruct (tally vs (o_pass (opts_of e (p_type p)))) eqn:Et; simpl; rewrite ?Et; repeat split; auto.
+  destruct (tally vs (p_pass p)) eqn:Et; simpl; rewrite ?Et; repeat split; auto.
 Qed.
 
 Lemma vote_update_powers : forall v o vs vs', vote_update v o vs = Some vs' ->
@@ -474,7 +469,7 @@ Qed.
 Theorem config_event_sound : forall s e id s' ev id', h_finalize s e id = Some (s', ev) -> EvConfig id' ∈ ev ->
   id' = id /\ exists p, g_props s !! id = Some p /\ p_type p = TConfig /\
     (p_store p = SPassed \/ p_store p = SFailed) /\ p_extra p < 8 /\
-    tally (p_votes p) (p_pass p) = RPassed /\ (p_store p = SPassed -> rank_of s' id = 4%nat).
+    tally (p_votes p) (p_pass p) = RPassed /\ p_votes p <> [] /\ (p_store p = SPassed -> rank_of s' id = 4%nat).
 Proof.
   intros s e id s' ev id' H Hin. unfold h_finalize, fin_move in H.
   destruct (g_props s !! id) as [p|] eqn:E; [|discriminate].
@@ -484,6 +479,7 @@ Proof.
     try (injection H as _ <-; apply elem_of_nil in Hin; destruct Hin).
   all: destruct (bool_decide (p_status p = StCompleted)) eqn:E2; simpl in H; [|discriminate].
   all: destruct (if p_snapblk p =? g_blk s then [] else p_votes p) as [|v0 vr] eqn:Ev; [discriminate|].
+  all: assert (Hvne : p_votes p <> []) by (destruct (p_snapblk p =? g_blk s); [discriminate | rewrite Ev; done]).
   all: destruct (tally (p_votes p) (p_pass p)) eqn:Et; try discriminate.
   all: try (destruct (bool_decide (p_type p = TConfig) && bool_decide (id ∈ e_cfgfail e));
             [simpl in H; injection H as _ <-; apply elem_of_nil in Hin; destruct Hin|]).
@@ -529,19 +525,26 @@ Qed.
    for a cancelled proposal or one that missed its goal *)
 Theorem withdraw_refund_exact : forall s id f amt ben s' ev p,
   h_withdraw s id f amt ben = Some (s', ev) -> g_props s !! id = Some p ->
-  ev = [EvRefund id f ben amt] /\
+  ev = [EvRefund id f ben amt] /\ 0 < amt /\ (p_store p = SActive \/ p_store p = SFailed) /\
   exists p' cur, g_props s' !! id = Some p' /\ refundable (p_outcome p') = true /\
     alookup f (p_indiv p) = Some cur /\ amt <= cur /\ amt <= p_total p /\
     p_total p' = p_total p - amt /\ p_indiv p' = aupd f (- amt) (p_indiv p) /\
     (refundable (p_outcome p) = false -> p_total p < p_goal p /\ p_fdl p < g_h s).
 Proof.
-  intros s id f amt ben s' ev p H E. unfold h_withdraw in H. rewrite E in H.
+  intros s id f amt ben s' ev p0 H E0. unfold h_withdraw in H.
+  destruct (g_props s !! id) as [p|] eqn:E; [|discriminate].
+  destruct (bool_decide (p_store p = SActive) || bool_decide (p_store p = SFailed)) eqn:Est; simpl in H; [|discriminate].
+  destruct (amt <=? 0) eqn:Eamt; [discriminate|]. apply Z.leb_gt in Eamt.
+  assert (Hst : p_store p = SActive \/ p_store p = SFailed).
+  { apply orb_prop in Est. destruct Est as [X|X]; apply bool_decide_eq_true in X; auto. }
+  clear Est.
+  assert (Hpp : p0 = p) by congruence. subst p0.
   destruct (refundable (p_outcome p)) eqn:Er.
   - destruct (funded_visible (g_blk s) p f); [|discriminate].
     destruct (alookup f (p_indiv p)) as [cur|] eqn:El; [|discriminate].
     destruct (cur - amt <? 0) eqn:E1; [discriminate|].
     destruct (p_total p - amt <? 0) eqn:E2; [discriminate|].
-    apply Z.ltb_ge in E1, E2. inversion H; subst; clear H. split; [reflexivity|].
+    apply Z.ltb_ge in E1, E2. inversion H; subst; clear H. split; [reflexivity|]. split; [exact Eamt|]. split; [exact Hst|].
     eexists. exists cur. simpl. rewrite lookup_insert. repeat split; auto; try lia; try congruence.
   - destruct ((p_goal p <=? p_total p) || (g_h s <=? p_fdl p)) eqn:Ec; [discriminate|].
     apply orb_false_iff in Ec. destruct Ec as [Ec1 Ec2]. apply Z.leb_gt in Ec1, Ec2.
@@ -552,8 +555,8 @@ Proof.
     destruct (cur - amt <? 0) eqn:E1; [discriminate|].
     destruct (p_total p - amt <? 0) eqn:E2; [discriminate|].
     apply Z.ltb_ge in E1, E2.
-    destruct (bool_decide (p_store p = SPassed)); inversion H; subst; clear H; (split; [reflexivity|]);
-      eexists; exists cur; simpl; rewrite lookup_insert; repeat split; auto; lia.
+    inversion H; subst; clear H. split; [reflexivity|]. split; [exact Eamt|]. split; [exact Hst|].
+    eexists; exists cur; simpl; rewrite lookup_insert; repeat split; auto; lia.
 Qed.
 
 (* ---------- expiry: only in the voting stage, only after the voting deadline (every step of every history) ---------- *)
@@ -638,6 +641,7 @@ Qed.
 Lemma fund_exp : forall s e id f amt s' ev, h_fund s e id f amt = Some (s', ev) -> exp_update s s'.
 Proof.
   intros s e id f amt s' ev H. unfold h_fund in H.
+  destruct (amt <=? 0) eqn:Eamt; [discriminate|].
   destruct (g_props s !! id) as [p|] eqn:E; [|discriminate].
   destruct (bool_decide (p_store p = SActive)) eqn:E1; simpl in H; [|discriminate].
   destruct (p_fdl p <? g_h s); [discriminate|].
@@ -660,7 +664,7 @@ Proof.
   destruct (vote_update v o (p_votes p)) as [vs|] eqn:Ev; [|discriminate].
   destruct (p_snapblk p =? g_blk s); [discriminate|].
   inversion H; subst; clear H. split; [reflexivity|].
-  destruct (tally vs (o_pass (opts_of e (p_type p)))); exp_solve E.
+  destruct (tally vs (p_pass p)); exp_solve E.
 Qed.
 
 Lemma cancel_exp : forall s id pr s' ev, h_cancel s id pr = Some (s', ev) -> exp_update s s'.
@@ -689,6 +693,8 @@ Lemma withdraw_exp : forall s id f amt ben s' ev, h_withdraw s id f amt ben = So
 Proof.
   intros s id f amt ben s' ev H. unfold h_withdraw in H.
   destruct (g_props s !! id) as [p|] eqn:E; [|discriminate].
+  destruct (bool_decide (p_store p = SActive) || bool_decide (p_store p = SFailed)) eqn:Est; simpl in H; [|discriminate].
+  destruct (amt <=? 0) eqn:Eamt; [discriminate|]. apply Z.leb_gt in Eamt.
   destruct (refundable (p_outcome p)) eqn:Er.
   - destruct (funded_visible (g_blk s) p f); [|discriminate].
     destruct (alookup f (p_indiv p)) as [cur|] eqn:El; [|discriminate].
@@ -703,8 +709,7 @@ Proof.
     destruct (alookup f (p_indiv p)) as [cur|] eqn:El; [|discriminate]. simpl in H.
     destruct (cur - amt <? 0); [discriminate|].
     destruct (p_total p - amt <? 0); [discriminate|].
-    destruct (bool_decide (p_store p = SPassed)); inversion H; subst; clear H;
-      (split; [reflexivity|]); exp_solve E.
+    inversion H; subst; clear H. split; [reflexivity|]. exp_solve E.
 Qed.
 
 Local Opaque distribute.
@@ -914,11 +919,13 @@ Qed.
 
 (* a cancelled / goal-missed proposal refunds a funder's whole record as long as the recorded total covers it *)
 Theorem refund_available : forall s id f ben p cur,
-  g_props s !! id = Some p -> refundable (p_outcome p) = true -> funded_visible (g_blk s) p f = true ->
-  alookup f (p_indiv p) = Some cur -> cur <= p_total p ->
+  g_props s !! id = Some p -> p_store p = SFailed -> refundable (p_outcome p) = true ->
+  funded_visible (g_blk s) p f = true -> alookup f (p_indiv p) = Some cur -> 0 < cur -> cur <= p_total p ->
   exists s', h_withdraw s id f cur ben = Some (s', [EvRefund id f ben cur]).
 Proof.
-  intros s id f ben p cur E Hr Hv Hl Ht. unfold h_withdraw. rewrite E, Hr, Hv, Hl.
+  intros s id f ben p cur E Hs Hr Hv Hl Hc Ht. unfold h_withdraw. rewrite E, Hs. simpl.
+  replace (cur <=? 0) with false by (symmetry; apply Z.leb_gt; lia).
+  rewrite Hr, Hv, Hl.
   replace (cur - cur <? 0) with false by (symmetry; apply Z.ltb_ge; lia).
   replace (p_total p - cur <? 0) with false by (symmetry; apply Z.ltb_ge; lia).
   eexists. reflexivity.
@@ -932,7 +939,7 @@ Theorem config_only_passed_partial : forall s e id s' ev id' p,
   id' = id /\ p_store p = SPassed /\ p_outcome p = p_outcome p /\ rank_of s' id = 4%nat.
 Proof.
   intros s e id s' ev id' p H Hin E Ht.
-  destruct (config_event_sound s e id s' ev id' H Hin) as (-> & q & Eq & Hty & Hst & Hx & Htal & Hr).
+  destruct (config_event_sound s e id s' ev id' H Hin) as (-> & q & Eq & Hty & Hst & Hx & Htal & Hvne & Hr).
   rewrite E in Eq. inversion Eq; subst q.
   assert (Hp : p_store p = SPassed).
   { destruct Hst as [Hs|Hs]; [exact Hs|]. exfalso. unfold trig_failed_but_passing in Ht.
@@ -997,28 +1004,30 @@ Proof.
   intros [Hn Ht] Ha. unfold FInv. rewrite af_indiv, af_total, asum_aupd. split; [apply aupd_nn_add; auto | lia].
 Qed.
 
-Lemma create_fupd : forall s e id ty pr amt fdl vdl goal pass cv s' ev, 0 <= amt ->
+Lemma create_fupd : forall s e id ty pr amt fdl vdl goal pass cv s' ev, 0 <= o_init (opts_of e ty) ->
   h_create s e id ty pr amt fdl vdl goal pass cv = Some (s', ev) -> fupd s s'.
 Proof.
-  intros s e id ty pr amt fdl vdl goal pass cv s' ev Ha H. unfold h_create in H. cbv zeta in H.
+  intros s e id ty pr amt fdl vdl goal pass cv s' ev Hinit H. unfold h_create in H. cbv zeta in H.
+  destruct (amt <? o_init (opts_of e ty)) eqn:Ea; [discriminate|]. apply Z.ltb_ge in Ea.
   repeat match type of H with (if ?c then None else _) = _ =>
     match type of c with bool => destruct c; [discriminate|] end end.
   destruct (g_props s !! id) eqn:E; [discriminate|].
   destruct (bal s pr - amt <? 0); [discriminate|]. inversion H; subst; clear H.
   right. exists id. eexists. split; [reflexivity|]. rewrite E.
-  apply FInv_add_funds; [|exact Ha]. split; [constructor | reflexivity].
+  apply FInv_add_funds; [|lia]. split; [constructor | reflexivity].
 Qed.
 
-Lemma fund_fupd : forall s e id f amt s' ev, 0 <= amt -> h_fund s e id f amt = Some (s', ev) -> fupd s s'.
+Lemma fund_fupd : forall s e id f amt s' ev, h_fund s e id f amt = Some (s', ev) -> fupd s s'.
 Proof.
-  intros s e id f amt s' ev Ha H. unfold h_fund in H.
+  intros s e id f amt s' ev H. unfold h_fund in H.
+  destruct (amt <=? 0) eqn:Eamt; [discriminate|]. apply Z.leb_gt in Eamt.
   destruct (g_props s !! id) as [p|] eqn:E; [|discriminate].
   destruct (bool_decide (p_store p = SActive)); simpl in H; [|discriminate].
   destruct (p_fdl p <? g_h s); [discriminate|].
   destruct (bool_decide (p_status p = StFunding)); simpl in H; [|discriminate].
   destruct (bal s f - amt <? 0); [discriminate|]. inversion H; subst; clear H.
   right. exists id. eexists. split; [reflexivity|]. rewrite E. intros HF.
-  apply FInv_add_funds; [|exact Ha]. destruct (p_goal p <=? amt + p_total p); exact HF.
+  apply FInv_add_funds; [|lia]. destruct (p_goal p <=? amt + p_total p); exact HF.
 Qed.
 
 Lemma stage_only_fupd s s' id p p' : g_props s !! id = Some p -> g_props s' = <[id := p']> (g_props s) ->
@@ -1066,6 +1075,8 @@ Lemma withdraw_fupd : forall s id f amt ben s' ev, h_withdraw s id f amt ben = S
 Proof.
   intros s id f amt ben s' ev H. unfold h_withdraw in H.
   destruct (g_props s !! id) as [p|] eqn:E; [|discriminate].
+  destruct (bool_decide (p_store p = SActive) || bool_decide (p_store p = SFailed)) eqn:Est; simpl in H; [|discriminate].
+  destruct (amt <=? 0) eqn:Eamt; [discriminate|]. apply Z.leb_gt in Eamt.
   destruct (refundable (p_outcome p)) eqn:Er.
   - destruct (funded_visible (g_blk s) p f); [|discriminate].
     destruct (alookup f (p_indiv p)) as [cur|] eqn:El; [|discriminate].
@@ -1081,12 +1092,12 @@ Proof.
     destruct (alookup f (p_indiv p)) as [cur|] eqn:El; [|discriminate]. simpl in H.
     destruct (cur - amt <? 0) eqn:E1; [discriminate|]. apply Z.ltb_ge in E1.
     destruct (p_total p - amt <? 0); [discriminate|].
-    destruct (bool_decide (p_store p = SPassed)); inversion H; subst; clear H;
-      (right; exists id; eexists; (split; [reflexivity|]); rewrite E; intros [Hn Ht]; unfold FInv; simpl;
-       rewrite asum_aupd; split; [eapply aupd_nn_sub; eauto | lia]).
+    inversion H; subst; clear H.
+    right; exists id; eexists; (split; [reflexivity|]); rewrite E; intros [Hn Ht]; unfold FInv; simpl;
+      rewrite asum_aupd; split; [eapply aupd_nn_sub; eauto | lia].
 Qed.
 
-Lemma finalize_fupd : forall s e id s' ev, e_keep e = [] -> h_finalize s e id = Some (s', ev) -> fupd s s'.
+Lemma finalize_fupd : forall s e id s' ev, True -> h_finalize s e id = Some (s', ev) -> fupd s s'.
 Proof.
   intros s e id s' ev Hk H. unfold h_finalize, fin_move in H.
   destruct (g_props s !! id) as [p|] eqn:E; [|discriminate].
@@ -1102,14 +1113,16 @@ Proof.
   all: right; exists id; eexists.
   all: (split; [ rewrite ?props_anom; simpl; rewrite ?Ed; try destruct (bool_decide (p_type p = TConfig)); reflexivity |]).
   all: rewrite E; intros [Hn Ht]; unfold FInv;
-       rewrite ?(del_funds_indiv_nokeep _ _ _ Hk); unfold del_funds; simpl;
+       rewrite ?del_funds_indiv_nokeep; unfold del_funds; simpl;
        (split; [ first [constructor | exact Hn] | first [reflexivity | exact Ht] ]).
 Qed.
 
-Definition nonneg_op (t : txop) : Prop :=
+(* the proposal options in force when a proposal is created are sane (ValidateProposal demands an initial funding
+   >= 1 and a pass percentage in 51..80 of every option set, at genesis and at every governance update) *)
+Definition sane_op (t : txop) : Prop :=
   match t_op t with
-  | OCreate _ _ _ amt _ _ _ _ _ => 0 <= amt
-  | OFund _ _ amt => 0 <= amt
+  | OCreate _ ty _ _ _ _ _ _ _ =>
+      0 <= o_init (opts_of (t_env t) ty) /\ 0 < o_pass (opts_of (t_env t) ty) <= 100
   | _ => True
   end.
 
@@ -1127,18 +1140,18 @@ Proof.
   intros HI. apply G. exact HI.
 Qed.
 
-Lemma step_funds s t : nokeep t -> nonneg_op t -> FundsInv s -> FundsInv (step s t).1.1.
+Lemma step_funds s t : sane_op t -> FundsInv s -> FundsInv (step s t).1.1.
 Proof.
-  intros Hk Hn HI. unfold step.
+  intros Hn HI. pose proof I as Hk. unfold step.
   assert (Hc : forall r, (forall s1 ev, r = Some (s1, ev) -> fupd s s1) ->
                FundsInv (match charge r (t_payer t) (t_fee t) with
                          | Some (s', ev) => (s', true, ev) | None => (s, false, []) end).1.1).
   { intros r Hr. destruct (charge r (t_payer t) (t_fee t)) as [[s' ev]|] eqn:Ec; simpl; [|exact HI].
     apply charge_props in Ec. destruct Ec as (s1 & -> & Heq).
     intros i p Hp. rewrite Heq in Hp. eapply (fupd_sound s s1); eauto. }
-  unfold nonneg_op in Hn. destruct (t_op t) eqn:Eo.
+  unfold sane_op in Hn. destruct (t_op t) eqn:Eo.
   - exact HI.
-  - apply Hc. intros; eapply create_fupd; eauto.
+  - apply Hc. intros; eapply create_fupd; [apply Hn | eauto].
   - apply Hc. intros; eapply fund_fupd; eauto.
   - apply Hc. intros; eapply vote_fupd; eauto.
   - apply Hc. intros; eapply cancel_fupd; eauto.
@@ -1159,30 +1172,389 @@ Proof.
   - apply Hc. intros s1 ev H. inversion H; subst. left. reflexivity.
 Qed.
 
-Lemma run_funds : forall ts s, Forall nokeep ts -> Forall nonneg_op ts -> FundsInv s -> FundsInv (run s ts).1.
+Lemma run_funds : forall ts s, Forall sane_op ts -> FundsInv s -> FundsInv (run s ts).1.
 Proof.
-  induction ts as [|t ts IH]; intros s Hk Hn HI; simpl; [exact HI|].
-  inversion Hk as [|? ? Hk1 Hk2]; subst. inversion Hn as [|? ? Hn1 Hn2]; subst.
-  pose proof (step_funds s t Hk1 Hn1 HI) as S1.
+  induction ts as [|t ts IH]; intros s Hn HI; simpl; [exact HI|].
+  inversion Hn as [|? ? Hn1 Hn2]; subst.
+  pose proof (step_funds s t Hn1 HI) as S1.
   destruct (step s t) as [[s1 ok] ev]. simpl in S1.
-  specialize (IH s1 Hk2 Hn2 S1). destruct (run s1 ts) as [s2 ev2]. exact IH.
+  specialize (IH s1 Hn2 S1). destruct (run s1 ts) as [s2 ev2]. exact IH.
 Qed.
 
-(* "returned in full", history level: after any history of non-negative contributions in which every distribution
-   deleted every funder record, a funder of a cancelled / goal-missed proposal whose record is committed can
-   withdraw the whole record *)
+Lemma Forall_nokeep ts : Forall nokeep ts.
+Proof. induction ts; constructor; [exact I | assumption]. Qed.
+
+Lemma FundsInv_init : FundsInv init.
+Proof. intros i q H. unfold init in H. simpl in H. rewrite lookup_empty in H. discriminate. Qed.
+
+Lemma refundable_failed p : PInv p -> refundable (p_outcome p) = true -> p_store p = SFailed.
+Proof.
+  intros (H1 & H2 & H3 & H4 & H5 & H6 & H7 & H8) Hr. specialize (H3 Hr).
+  destruct (p_store p) eqn:Es; auto.
+  - rewrite (H6 eq_refl) in Hr. discriminate.
+  - rewrite (H8 eq_refl) in Hr. discriminate.
+  - exfalso. apply H5; auto.
+  - exfalso. apply H5; auto.
+Qed.
+
+(* "returned in full", history level, FULL: after any history (sane options at creation), a funder of a cancelled /
+   goal-missed proposal whose record is committed and positive can withdraw the whole record *)
 Theorem refund_in_full : forall ts id f ben p cur,
-  Forall nokeep ts -> Forall nonneg_op ts ->
+  Forall sane_op ts ->
   let s := (run init ts).1 in
   g_props s !! id = Some p -> refundable (p_outcome p) = true -> funded_visible (g_blk s) p f = true ->
-  alookup f (p_indiv p) = Some cur ->
-  0 <= cur /\ exists s', h_withdraw s id f cur ben = Some (s', [EvRefund id f ben cur]).
+  alookup f (p_indiv p) = Some cur -> 0 < cur ->
+  exists s', h_withdraw s id f cur ben = Some (s', [EvRefund id f ben cur]).
 Proof.
-  intros ts id f ben p cur Hk Hn s E Hr Hv Hl.
-  assert (HF : FundsInv s).
-  { apply run_funds; auto. intros i q H. unfold init in H. simpl in H. rewrite lookup_empty in H. discriminate. }
-  destruct (HF id p E) as [Hnn Ht]. split.
-  - clear -Hnn Hl. induction (p_indiv p) as [|[k v] l IH]; simpl in Hl; [discriminate|].
-    inversion Hnn as [|? ? Hv Hr]; subst. destruct (N.eqb f k); [injection Hl as <-; exact Hv | auto].
-  - eapply refund_available; eauto. rewrite Ht. eapply alookup_le_asum; eauto.
+  intros ts id f ben p cur Hn s E Hr Hv Hl Hc.
+  assert (HF : FundsInv s) by (apply run_funds; [exact Hn | exact FundsInv_init]).
+  destruct (run_pres ts init (Forall_nokeep ts) Inv_init) as [HI _].
+  destruct (HF id p E) as [Hnn Ht].
+  eapply refund_available; eauto.
+  - eapply refundable_failed; eauto.
+  - rewrite Ht. eapply alookup_le_asum; eauto.
+Qed.
+
+(* ---------- the tally and the store agree (votes are tallied with the proposal's own percentage) ---------- *)
+Definition unk (v : vote) : Prop := v_op v = OpUnknown.
+
+Lemma vote_setup_unk v pw vs : Forall unk vs -> Forall unk (vote_setup v pw vs).
+Proof.
+  intros H. induction vs as [|x r IH]; simpl; [constructor; [reflexivity|constructor]|].
+  inversion H as [|? ? Hx Hr]; subst. destruct (N.eqb (v_val x) v); constructor; auto. reflexivity.
+Qed.
+
+Lemma snapshot_unk act : forall vs, Forall unk vs -> Forall unk (snapshot act vs).
+Proof.
+  unfold snapshot. induction act as [|a act IH]; intros vs H; simpl; [exact H|].
+  apply IH. apply vote_setup_unk. exact H.
+Qed.
+
+Lemma power_of_unk o vs : Forall unk vs -> o <> OpUnknown -> power_of o vs = 0.
+Proof.
+  intros H Ho. induction H as [|x l Hx _ IH]; [reflexivity|]. unfold power_of in *. simpl. rewrite IH.
+  unfold unk in Hx. rewrite Hx. rewrite bool_decide_eq_false_2 by congruence. lia.
+Qed.
+
+Lemma tally_unk vs pass : Forall unk vs -> 0 < pass <= 100 -> tally vs pass = RTBD.
+Proof.
+  intros H Hp. unfold tally.
+  rewrite (power_of_unk OpGiveup vs H), (power_of_unk OpYes vs H), (power_of_unk OpNo vs H) by discriminate.
+  destruct (0 <? power_all vs - 0) eqn:Et.
+  - apply Z.ltb_lt in Et.
+    replace (pass * (power_all vs - 0) <=? 0 * 100) with false by (symmetry; apply Z.leb_gt; nia).
+    replace ((power_all vs - 0 - 0) * 100 <? pass * (power_all vs - 0)) with false by (symmetry; apply Z.ltb_ge; nia).
+    reflexivity.
+  - replace (pass <=? 0) with false by (symmetry; apply Z.leb_gt; lia).
+    replace (100 <? pass) with false by (symmetry; apply Z.ltb_ge; lia). reflexivity.
+Qed.
+
+Definition TP (p : prec) : Prop :=
+  0 < p_pass p <= 100 /\
+  (p_store p = SActive -> p_votes p = [] \/ tally (p_votes p) (p_pass p) = RTBD) /\
+  (p_store p = SFailed -> p_votes p = [] \/ tally (p_votes p) (p_pass p) <> RPassed).
+Definition TInv (s : state) : Prop := forall id p, g_props s !! id = Some p -> TP p.
+
+Definition tupd (s s' : state) : Prop :=
+  g_props s' = g_props s \/
+  exists id p', g_props s' = <[id := p']> (g_props s) /\
+    match g_props s !! id with Some p => PInv p -> TP p -> TP p' | None => TP p' end.
+
+Lemma tupd_sound s s' : tupd s s' -> Inv s -> TInv s -> TInv s'.
+Proof.
+  intros [Heq | (id & p' & Heq & Hm)] HI HT i p Hp; rewrite Heq in Hp; [eauto|].
+  destruct (decide (i = id)) as [->|Hne].
+  - rewrite lookup_insert in Hp. inversion Hp; subst.
+    destruct (g_props s !! id) as [p0|] eqn:E; [apply Hm; eauto | exact Hm].
+  - rewrite lookup_insert_ne in Hp by congruence. eauto.
+Qed.
+
+Ltac tp_same E := right; eexists; eexists; (split; [reflexivity|]); rewrite E;
+  intros HP (Hpass & Hact & Hfail); unfold TP; rewrite ?af_store, ?af_votes; simpl.
+
+Lemma af_pass b p f a : p_pass (add_funds b p f a) = p_pass p.
+Proof. unfold add_funds. destruct (alookup f (p_indiv p)); reflexivity. Qed.
+
+Lemma create_tupd : forall s e id ty pr amt fdl vdl goal pass cv s' ev, 0 < o_pass (opts_of e ty) <= 100 ->
+  h_create s e id ty pr amt fdl vdl goal pass cv = Some (s', ev) -> tupd s s'.
+Proof.
+  intros s e id ty pr amt fdl vdl goal pass cv s' ev Hsane H. unfold h_create in H. cbv zeta in H.
+  destruct (amt <? o_init (opts_of e ty)); [discriminate|].
+  destruct (o_goal (opts_of e ty) <=? amt); [discriminate|].
+  destruct (goal =? o_goal (opts_of e ty)); simpl in H; [|discriminate].
+  destruct (pass =? o_pass (opts_of e ty)) eqn:Ep; simpl in H; [|discriminate]. apply Z.eqb_eq in Ep.
+  repeat match type of H with (if ?c then None else _) = _ =>
+    match type of c with bool => destruct c; [discriminate|] end end.
+  destruct (g_props s !! id) eqn:E; [discriminate|].
+  destruct (bal s pr - amt <? 0); [discriminate|]. inversion H; subst; clear H.
+  right. exists id. eexists. split; [reflexivity|]. rewrite E.
+  unfold TP. rewrite af_pass, af_store, af_votes. simpl. repeat split; try lia; intros; auto; discriminate.
+Qed.
+
+Lemma fund_tupd : forall s e id f amt s' ev, h_fund s e id f amt = Some (s', ev) -> tupd s s'.
+Proof.
+  intros s e id f amt s' ev H. unfold h_fund in H.
+  destruct (amt <=? 0); [discriminate|].
+  destruct (g_props s !! id) as [p|] eqn:E; [|discriminate].
+  destruct (bool_decide (p_store p = SActive)) eqn:E1; simpl in H; [|discriminate].
+  destruct (p_fdl p <? g_h s); [discriminate|].
+  destruct (bool_decide (p_status p = StFunding)) eqn:E2; simpl in H; [|discriminate].
+  apply bool_decide_eq_true in E1, E2.
+  destruct (bal s f - amt <? 0); [discriminate|]. inversion H; subst; clear H.
+  right. exists id. eexists. split; [reflexivity|]. rewrite E.
+  intros HP (Hpass & Hact & Hfail). destruct HP as (H1 & _). specialize (H1 E2).
+  unfold TP. rewrite af_pass, af_store, af_votes.
+  destruct (p_goal p <=? amt + p_total p); simpl.
+  - split; [exact Hpass|]. split; [|rewrite E1; discriminate].
+    intros _. right. apply tally_unk; [|exact Hpass]. apply snapshot_unk. rewrite H1. constructor.
+  - split; [exact Hpass|]. split; [intros _; left; exact H1 | rewrite E1; discriminate].
+Qed.
+
+Lemma vote_tupd : forall s e id v o s' ev, h_vote s e id v o = Some (s', ev) -> tupd s s'.
+Proof.
+  intros s e id v o s' ev H. unfold h_vote in H.
+  destruct (g_props s !! id) as [p|] eqn:E; [|discriminate].
+  destruct (bool_decide (p_store p = SActive)) eqn:E1; simpl in H; [|discriminate].
+  destruct (bool_decide (p_status p = StVoting)); simpl in H; [|discriminate].
+  apply bool_decide_eq_true in E1.
+  destruct (p_vdl p <? g_h s); [discriminate|].
+  destruct (bool_decide (v ∈ e_vals e)); simpl in H; [|discriminate].
+  destruct (vote_update v o (p_votes p)) as [vs|]; [|discriminate].
+  destruct (p_snapblk p =? g_blk s); [discriminate|].
+  inversion H; subst; clear H.
+  right. exists id. eexists. split; [reflexivity|]. rewrite E.
+  intros HP (Hpass & Hact & Hfail). unfold TP.
+  destruct (tally vs (p_pass p)) eqn:Et; simpl; (split; [exact Hpass|]); rewrite ?E1, ?Et;
+    (split; intros; try discriminate; right; congruence).
+Qed.
+
+Lemma cancel_tupd : forall s id pr s' ev, h_cancel s id pr = Some (s', ev) -> tupd s s'.
+Proof.
+  intros s id pr s' ev H. unfold h_cancel in H.
+  destruct (g_props s !! id) as [p|] eqn:E; [|discriminate].
+  destruct (bool_decide (p_store p = SActive)); simpl in H; [|discriminate].
+  destruct (bool_decide (p_status p = StFunding)) eqn:E2; simpl in H; [|discriminate].
+  apply bool_decide_eq_true in E2.
+  destruct (p_fdl p <? g_h s); [discriminate|].
+  destruct (N.eqb (p_proposer p) pr); simpl in H; [|discriminate].
+  inversion H; subst; clear H.
+  right. exists id. eexists. split; [reflexivity|]. rewrite E.
+  intros (H1 & _) (Hpass & Hact & Hfail). unfold TP. simpl.
+  split; [exact Hpass|]. split; [discriminate | intros _; left; auto].
+Qed.
+
+Lemma expire_tupd : forall s id s' ev, h_expire s id = Some (s', ev) -> tupd s s'.
+Proof.
+  intros s id s' ev H. unfold h_expire in H.
+  destruct (g_props s !! id) as [p|] eqn:E; [|discriminate].
+  destruct (bool_decide (p_store p = SActive)) eqn:E1; simpl in H; [|discriminate].
+  apply bool_decide_eq_true in E1.
+  destruct (bool_decide (p_status p = StVoting)); simpl in H; [|discriminate].
+  destruct (g_h s <=? p_vdl p); [discriminate|].
+  inversion H; subst; clear H.
+  right. exists id. eexists. split; [reflexivity|]. rewrite E.
+  intros _ (Hpass & Hact & Hfail). unfold TP. simpl.
+  split; [exact Hpass|]. split; [discriminate|]. intros _.
+  destruct (Hact E1) as [Hv|Ht]; [left; exact Hv | right; congruence].
+Qed.
+
+Lemma withdraw_tupd : forall s id f amt ben s' ev, h_withdraw s id f amt ben = Some (s', ev) -> tupd s s'.
+Proof.
+  intros s id f amt ben s' ev H. unfold h_withdraw in H.
+  destruct (g_props s !! id) as [p|] eqn:E; [|discriminate].
+  destruct (bool_decide (p_store p = SActive) || bool_decide (p_store p = SFailed)) eqn:Est; simpl in H; [|discriminate].
+  destruct (amt <=? 0); [discriminate|].
+  assert (Hst : p_store p = SActive \/ p_store p = SFailed).
+  { apply orb_prop in Est. destruct Est as [X|X]; apply bool_decide_eq_true in X; auto. }
+  destruct (refundable (p_outcome p)) eqn:Er.
+  - destruct (funded_visible (g_blk s) p f); [|discriminate].
+    destruct (alookup f (p_indiv p)) as [cur|]; [|discriminate].
+    destruct (cur - amt <? 0); [discriminate|].
+    destruct (p_total p - amt <? 0); [discriminate|].
+    inversion H; subst; clear H.
+    right. exists id. eexists. split; [reflexivity|]. rewrite E. intros _ HT. exact HT.
+  - destruct ((p_goal p <=? p_total p) || (g_h s <=? p_fdl p)); [discriminate|].
+    cbv zeta in H. simpl in H.
+    destruct (funded_visible (g_blk s) _ f); [|discriminate].
+    destruct (alookup f (p_indiv p)) as [cur|]; [|discriminate]. simpl in H.
+    destruct (cur - amt <? 0); [discriminate|].
+    destruct (p_total p - amt <? 0); [discriminate|].
+    inversion H; subst; clear H.
+    right. exists id. eexists. split; [reflexivity|]. rewrite E.
+    intros _ (Hpass & Hact & Hfail). unfold TP. simpl.
+    split; [exact Hpass|]. split; [discriminate|]. intros _.
+    destruct Hst as [Hs|Hs]; [destruct (Hact Hs) as [Hv|Ht]; [left; exact Hv | right; congruence] | exact (Hfail Hs)].
+Qed.
+
+Lemma finalize_tupd : forall s e id s' ev, h_finalize s e id = Some (s', ev) -> tupd s s'.
+Proof.
+  intros s e id s' ev H. unfold h_finalize, fin_move in H.
+  destruct (g_props s !! id) as [p|] eqn:E; [|discriminate].
+  destruct (8 <=? p_extra p). { inversion H; subst. left. reflexivity. }
+  destruct (p_store p) eqn:Es; try discriminate;
+    try (inversion H; subst; left; reflexivity).
+  all: destruct (bool_decide (p_status p = StCompleted)) eqn:E2; simpl in H; [|discriminate].
+  all: destruct (if p_snapblk p =? g_blk s then [] else p_votes p) as [|v0 vr] eqn:Ev; [discriminate|].
+  all: destruct (tally (p_votes p) (p_pass p)); try discriminate.
+  all: try (destruct (bool_decide (p_type p = TConfig) && bool_decide (id ∈ e_cfgfail e))).
+  all: try (destruct (distribute _ e id p _) as [[s1 paid] bad] eqn:Ed; apply distribute_props in Ed).
+  all: simpl in H; inversion H; subst; clear H.
+  all: right; exists id; eexists.
+  all: (split; [ rewrite ?props_anom; simpl; rewrite ?Ed; try destruct (bool_decide (p_type p = TConfig)); reflexivity |]).
+  all: rewrite E; intros _ (Hpass & Hact & Hfail); unfold TP, del_funds; simpl; rewrite ?Es;
+       (split; [exact Hpass|]); (split; intros; try discriminate; auto).
+Qed.
+
+Definition Good (s : state) : Prop := Inv s /\ TInv s.
+
+Lemma good_step_handler s s' : good_update s s' -> tupd s s' -> Good s -> Good s'.
+Proof.
+  intros Hg Ht [HI HT]. split; [apply (good_update_sound s s' Hg HI) | eapply tupd_sound; eauto].
+Qed.
+
+Lemma good_same s s' : g_props s' = g_props s -> Good s -> Good s'.
+Proof. intros Heq. apply good_step_handler; left; exact Heq. Qed.
+
+(* the finalisation of a good state applies a configuration change only for a proposal in the passed store *)
+Lemma finalize_config_passed : forall s e id s' ev id', Good s ->
+  h_finalize s e id = Some (s', ev) -> EvConfig id' ∈ ev ->
+  id' = id /\ exists p, g_props s !! id = Some p /\ p_type p = TConfig /\ p_store p = SPassed /\
+    p_outcome p = OCompletedYes /\ tally (p_votes p) (p_pass p) = RPassed /\ rank_of s' id = 4%nat.
+Proof.
+  intros s e id s' ev id' [HI HT] H Hin.
+  destruct (config_event_sound s e id s' ev id' H Hin) as (-> & p & E & Hty & Hst & Hx & Htal & Hvne & Hr).
+  split; [reflexivity|]. exists p.
+  assert (Hp : p_store p = SPassed).
+  { destruct Hst as [Hs|Hs]; [exact Hs|]. exfalso. destruct (HT id p E) as (_ & _ & Hfail).
+    destruct (Hfail Hs) as [Hv|Hn]; [exact (Hvne Hv) | exact (Hn Htal)]. }
+  destruct (HI id p E) as (_ & _ & _ & _ & _ & _ & _ & H8).
+  repeat split; auto.
+Qed.
+
+(* where a configuration change was applied: in some good state the proposal was in the passed store *)
+Definition cfg_passed (id : N) : Prop :=
+  exists st p, Good st /\ g_props st !! id = Some p /\ p_type p = TConfig /\ p_store p = SPassed /\
+    p_outcome p = OCompletedYes /\ tally (p_votes p) (p_pass p) = RPassed.
+
+Lemma run_queue_fin_good : forall e q s, Good s ->
+  Good (run_queue (fun st id => h_finalize st e id) q s).1 /\
+  forall id, EvConfig id ∈ (run_queue (fun st id => h_finalize st e id) q s).2 -> cfg_passed id.
+Proof.
+  intros e q s HG. unfold run_queue.
+  assert (G : forall q (acc : state * list event), Good acc.1 -> (forall id, EvConfig id ∈ acc.2 -> cfg_passed id) ->
+            let r := fold_left (fun acc id => match h_finalize acc.1 e id with
+                                              | Some (s', ev) => (s', acc.2 ++ ev)
+                                              | None => acc end) q acc in
+            Good r.1 /\ forall id, EvConfig id ∈ r.2 -> cfg_passed id).
+  { induction q0 as [|i q0 IH]; intros acc Hacc Hev; simpl; [auto|].
+    apply IH; destruct (h_finalize acc.1 e i) as [[st' ev]|] eqn:Eh; simpl; auto.
+    - eapply good_step_handler; [eapply finalize_good; eauto | eapply finalize_tupd; eauto | exact Hacc].
+    - intros id Hin. apply elem_of_app in Hin. destruct Hin as [Hin|Hin]; [auto|].
+      destruct (finalize_config_passed _ _ _ _ _ _ Hacc Eh Hin) as (-> & p & E & Hty & Hs & Ho & Ht & _).
+      exists acc.1, p. auto 10. }
+  apply G; [exact HG|]. simpl. intros id Hin. apply elem_of_nil in Hin. destruct Hin.
+Qed.
+
+Lemma run_queue_exp_good : forall q s, Good s ->
+  Good (run_queue h_expire q s).1 /\ (run_queue h_expire q s).2 = [].
+Proof.
+  intros q s HG. unfold run_queue.
+  assert (G : forall q (acc : state * list event), Good acc.1 -> acc.2 = [] ->
+            let r := fold_left (fun acc id => match h_expire acc.1 id with
+                                              | Some (s', ev) => (s', acc.2 ++ ev)
+                                              | None => acc end) q acc in
+            Good r.1 /\ r.2 = []).
+  { induction q0 as [|i q0 IH]; intros acc Hacc Hev; simpl; [auto|].
+    apply IH; destruct (h_expire acc.1 i) as [[st' ev]|] eqn:Eh; simpl; auto.
+    - eapply good_step_handler; [eapply expire_good; eauto | eapply expire_tupd; eauto | exact Hacc].
+    - rewrite Hev. unfold h_expire in Eh. destruct (g_props acc.1 !! i); [|discriminate].
+      repeat match type of Eh with (if ?c then None else _) = _ => destruct c; [discriminate|] end.
+      inversion Eh. reflexivity. }
+  apply G; [exact HG | reflexivity].
+Qed.
+
+Lemma step_good s t : sane_op t -> Good s ->
+  Good (step s t).1.1 /\ forall id, EvConfig id ∈ (step s t).2 -> cfg_passed id.
+Proof.
+  intros Hn HG. unfold step.
+  assert (Hc : forall r, (forall s1 ev, r = Some (s1, ev) -> good_update s s1 /\ tupd s s1 /\ forall id, EvConfig id ∉ ev) ->
+               let x := match charge r (t_payer t) (t_fee t) with
+                        | Some (s', ev) => (s', true, ev) | None => (s, false, []) end in
+               Good x.1.1 /\ forall id, EvConfig id ∈ x.2 -> cfg_passed id).
+  { intros r Hr. destruct (charge r (t_payer t) (t_fee t)) as [[s' ev]|] eqn:Ec; simpl.
+    - apply charge_props in Ec. destruct Ec as (s1 & -> & Heq).
+      destruct (Hr s1 ev eq_refl) as (Hg & Ht & Hne). split.
+      + eapply good_same; [exact Heq|]. eapply good_step_handler; eauto.
+      + intros id Hin. exfalso. exact (Hne id Hin).
+    - split; [exact HG|]. intros id Hin. apply elem_of_nil in Hin. destruct Hin. }
+  assert (Hsing : forall (x : event) id, (forall i, x <> EvConfig i) -> EvConfig id ∉ [x]).
+  { intros x id Hx Hin. apply elem_of_list_singleton in Hin. exact (Hx id (eq_sym Hin)). }
+  unfold sane_op in Hn. destruct (t_op t) eqn:Eo.
+  - simpl. split; [eapply good_same; [reflexivity | exact HG]|]. intros id Hin. apply elem_of_nil in Hin. destruct Hin.
+  - apply Hc. intros s1 ev H. split; [eapply create_good; eauto|]. split; [eapply create_tupd; [apply Hn | eauto]|].
+    unfold h_create in H. cbv zeta in H.
+    repeat match type of H with (if ?c then None else _) = _ =>
+      match type of c with bool => destruct c; [discriminate|] end end.
+    destruct (g_props s !! id); [discriminate|]. destruct (bal s proposer - amt <? 0); [discriminate|].
+    inversion H; subst. intros i. apply Hsing. discriminate.
+  - apply Hc. intros s1 ev H. split; [eapply fund_good; eauto|]. split; [eapply fund_tupd; eauto|].
+    unfold h_fund in H. destruct (amt <=? 0); [discriminate|]. destruct (g_props s !! id); [|discriminate].
+    repeat match type of H with (if ?c then None else _) = _ =>
+      match type of c with bool => destruct c; [discriminate|] end end.
+    inversion H; subst. intros i. apply Hsing. discriminate.
+  - apply Hc. intros s1 ev H. split; [eapply vote_good; eauto|]. split; [eapply vote_tupd; eauto|].
+    unfold h_vote in H. destruct (g_props s !! id); [|discriminate].
+    repeat match type of H with (if ?c then None else _) = _ =>
+      match type of c with bool => destruct c; [discriminate|] end end.
+    destruct (vote_update val o _); [|discriminate]. destruct (_ =? _); [discriminate|].
+    inversion H; subst. intros i Hin. apply elem_of_nil in Hin. destruct Hin.
+  - apply Hc. intros s1 ev H. split; [eapply cancel_good; eauto|]. split; [eapply cancel_tupd; eauto|].
+    unfold h_cancel in H. destruct (g_props s !! id); [|discriminate].
+    repeat match type of H with (if ?c then None else _) = _ =>
+      match type of c with bool => destruct c; [discriminate|] end end.
+    inversion H; subst. intros i Hin. apply elem_of_nil in Hin. destruct Hin.
+  - apply Hc. intros s1 ev H. split; [eapply withdraw_good; eauto|]. split; [eapply withdraw_tupd; eauto|].
+    destruct (g_props s !! id) as [p|] eqn:E.
+    + destruct (withdraw_refund_exact _ _ _ _ _ _ _ _ H E) as [-> _]. intros i. apply Hsing. discriminate.
+    + unfold h_withdraw in H. rewrite E in H. discriminate.
+  - destruct (h_expire s id) as [[s' ev]|] eqn:Eh; simpl.
+    + split; [eapply good_step_handler; [eapply expire_good; eauto | eapply expire_tupd; eauto | exact HG]|].
+      unfold h_expire in Eh. destruct (g_props s !! id); [|discriminate].
+      repeat match type of Eh with (if ?c then None else _) = _ => destruct c; [discriminate|] end.
+      inversion Eh; subst. intros i Hin. apply elem_of_nil in Hin. destruct Hin.
+    + split; [exact HG|]. intros i Hin. apply elem_of_nil in Hin. destruct Hin.
+  - destruct (h_finalize s (t_env t) id) as [[s' ev]|] eqn:Eh; simpl.
+    + split; [eapply good_step_handler; [eapply finalize_good; eauto | eapply finalize_tupd; eauto | exact HG]|].
+      intros i Hin. destruct (finalize_config_passed _ _ _ _ _ _ HG Eh Hin) as (-> & p & E & Hty & Hs & Ho & Ht & _).
+      exists s, p. auto 10.
+    + split; [exact HG|]. intros i Hin. apply elem_of_nil in Hin. destruct Hin.
+  - unfold end_block.
+    destruct (run_queue_exp_good (g_qexp s) s HG) as [G1 Ev1].
+    destruct (run_queue h_expire (g_qexp s) s) as [s1 ev1]. simpl in G1, Ev1. subst ev1.
+    destruct (run_queue_fin_good (t_env t) (g_qfin s) s1 G1) as [G2 Ev2].
+    destruct (run_queue (fun st id => h_finalize st (t_env t) id) (g_qfin s) s1) as [s2 ev2]. simpl in *.
+    split; [eapply good_same; [reflexivity | exact G2] | exact Ev2].
+  - apply Hc. intros s1 ev H. inversion H; subst.
+    split; [left; reflexivity|]. split; [left; reflexivity|]. intros i Hin. apply elem_of_nil in Hin. destruct Hin.
+Qed.
+
+Lemma run_good : forall ts s, Forall sane_op ts -> Good s -> Good (run s ts).1.
+Proof.
+  induction ts as [|t ts IH]; intros s Hn HG; simpl; [exact HG|].
+  inversion Hn as [|? ? Hn1 Hn2]; subst.
+  destruct (step_good s t Hn1 HG) as [S1 _]. destruct (step s t) as [[s1 ok] ev]. simpl in S1.
+  specialize (IH s1 Hn2 S1). destruct (run s1 ts) as [s2 ev2]. exact IH.
+Qed.
+
+Lemma Good_init : Good init.
+Proof. split; [exact Inv_init|]. intros i q H. unfold init in H. simpl in H. rewrite lookup_empty in H. discriminate. Qed.
+
+(* FULL: along every history (sane options at creation), whatever the next operation is, a configuration change is
+   applied only for a configuration proposal that is recorded as passed (passed store, outcome completedYes, votes
+   passing under its own percentage) in the state in which its finalisation runs *)
+Theorem config_only_for_passed : forall ts t id, Forall sane_op ts -> sane_op t ->
+  EvConfig id ∈ (step (run init ts).1 t).2 -> cfg_passed id.
+Proof.
+  intros ts t id Hn Ht Hin.
+  destruct (step_good (run init ts).1 t Ht (run_good ts init Hn Good_init)) as [_ H]. exact (H id Hin).
 Qed.
